@@ -37,6 +37,27 @@ static void check_map(const M& m, const Model& r, bool ordered, const char* msg)
 }
 
 // keys: symbolic in [0, p2]; p0 = ops, p1 = initial entries, p3 = kind (0 Map<int,int>, 1 HashMap(2), 2 HashMap(4), 3 HashMap() with keys = 256*k+5)
+// merge (Map only): into an empty map and into the map under test; the maps stay independent afterwards
+template<class M> struct Merge { static void run(M&, Model&, int) {} enum { OPS = 6 }; };
+template<> struct Merge<Map<int, int> >
+{
+	enum { OPS = 7 };
+	static void run(Map<int, int>& m, Model& r, int k)
+	{
+		Map<int, int> t;
+		t.add(m);                                   // merge into an empty map
+		vp_assert(t.length() == r.n, "merging into an empty map gives the same number of keys");
+		int v = (int)nondet_u32();
+		t.set(k, v);                                // ... and the two maps do not share storage afterwards
+		if (r.find(k) >= 0) vp_assert(m[k] == r.v[r.find(k)], "changing the merged map leaves the source untouched"); else vp_assert(!m.has(k), "changing the merged map adds nothing to the source");
+		Map<int, int> o; int v2 = (int)nondet_u32();
+		o.set(k, v2);
+		vp_assume(r.n < MAXE - 1);
+		m.add(o); r.set(k, v2);                     // merge another map into the map under test
+		o.set(k, v2 + 1);
+		vp_assert(m[k] == v2, "changing the merged-in map afterwards leaves the target untouched");
+	}
+};
 template<class M>
 static void map_hist(M& m, bool ordered, int mul, int add)
 {
@@ -47,7 +68,7 @@ static void map_hist(M& m, bool ordered, int mul, int add)
 	check_map(m, r, ordered, "initial map equals model");
 	M cl = m.clone(); Model cr = r;
 	for (int s = 0; s < nops; s++) {
-		int op = vp_concretize(vp_range(0, 5));
+		int op = vp_concretize(vp_range(0, Merge<M>::OPS - 1));
 		int k = vp_range(0, kmax) * mul + add;
 		switch (op) {
 		case 0: { int v = (int)nondet_u32(); vp_assume(r.n < MAXE - 1); m.set(k, v); r.set(k, v); break; }
@@ -57,6 +78,7 @@ static void map_hist(M& m, bool ordered, int mul, int add)
 		case 3: { vp_assert(m.has(k) == (r.find(k) >= 0), "has() agrees with the model");
 			const M& cm = m; int d = cm.get(k, -77); vp_assert(d == (r.find(k) >= 0 ? r.v[r.find(k)] : -77), "get() with default"); break; }
 		case 4: { m.clear(); r.n = 0; break; }
+		case 6: { Merge<M>::run(m, r, k); break; }
 		case 5: { M t(m); vp_assert(t.length() == r.n, "copy handle"); M u = m.clone(); vp_assert(u == m, "clone equals source"); break; }
 		}
 		check_map(m, r, ordered, "map equals the model after the operation");
